@@ -9,7 +9,8 @@ PROP = {'streams': [('c14', 2500, 120000)],
          'consistency check); per completion: definite decision vs is_authorized, every residual policy (get_policy) vs its original under the '
          'concrete evaluator, reauthorize vs concrete vs the policies() view; views compared id by id; query_resource / query_principal vs brute '
          'force on the original and the last completion; query_action vs every applicable action on every completion; non-trivial = something '
-         'erased and at least one residual-class policy; distinct by policies + partial request + partial store',
+         'erased and at least one residual-class policy; distinct by policies + partial request + partial store'
+         "; 20% of the cases are the set-membership family: a fixed world with set-valued context fields / entity attributes (entities, longs, strings), sets shrunk to empty (45%) or singleton (25%), policies <set>.contains/containsAny/containsAll(<operand>) (both orders) whose operand stays residual and errors on some completions (attribute chains through entities absent from the completion's store, guarded optional attributes / tags, overflowing arithmetic), under ! || && if in when/unless of permits and forbids; context mostly known, resource mostly unknown",
  'theorems': ['tpe_table_sound', 'views_agree', 'policy_set_presents_originals', 'views_agree_full_fails', 'interpret_sound',
               'interpret_sound_outcomes', 'interpret_keeps_typeSafe', 'can_error_analysis_sound', 'tpe_decision_sound',
               'interpret_sound_partial', 'opBool_all_unsatisfiable', 'query_exact', 'query_action_sound', 'query_resource_exact',
